@@ -225,28 +225,44 @@ def mc_explore(ctx, progs, timeout=900, tag="mc", workers=None, coverage=False):
 
 # ------------------------------------------------------------------------------------------- TLC: trace validation (T)
 
-def _batch_file(path, runs):
+def _batch_file(path, runs, eof=False):
     """runs: list of (pid1based, records). Writes the ndjson batch; returns line ranges per run."""
     ranges = []
     n = 0
     with open(path, "w") as f:
-        for pid, recs in runs:
+        for j, (pid, recs) in enumerate(runs):
             start = n + 1
-            f.write(json.dumps({"e": "reset", "pid": pid}) + "\n")
+            f.write(json.dumps({"e": "reset", "pid": pid, "run": j + 1}) + "\n")
             n += 1
             for r in recs:
                 f.write(json.dumps(r) + "\n")
                 n += 1
             ranges.append((start, n))
+        if eof:
+            f.write(json.dumps({"e": "eof"}) + "\n")
     return ranges
 
 
-def validate_traces(ctx, progs, traces, tag="tv", timeout=1200, spec="SgKernelTrace.tla", chunk=400, max_rej=6):
+def streams(recs, nactors):
+    """Projection of a trace on its streams (maestro lines; per-actor lines), for SgKernelTraceEq."""
+    m, a = [], [[] for _ in range(nactors)]
+    for r in recs:
+        if r.get("e") in ("issue", "ret", "killed") and 1 <= r.get("a", 0) <= nactors:
+            a[r["a"] - 1].append(r)
+        else:
+            m.append(r)
+    return {"m": m, "a": a}
+
+
+def validate_traces(ctx, progs, traces, tag="tv", timeout=1200, spec="SgKernelTrace.tla", chunk=400, max_rej=6,
+                    refs=None):
     """traces[i] = records of the run of progs[i] (or list of (prog index, records)). Returns a list of rejections
     {run, prog, line, record, reason, tlc}. A rejected run is removed and the rest of its batch re-validated, so every
     run is examined."""
     if traces and not isinstance(traces[0], tuple):
         traces = list(enumerate(traces))
+    if refs is not None:   # refs[j] = reference trace (records) of traces[j]; carried along as a third component
+        traces = [(pi, recs, ref) for (pi, recs), ref in zip(traces, refs)]
     pf = os.path.join(ctx.scratch, tag + "_progs.json")
     write_progs(pf, progs)
     rejections = []
@@ -263,8 +279,13 @@ def validate_traces(ctx, progs, traces, tag="tv", timeout=1200, spec="SgKernelTr
         while todo and len(rej) < max_rej:
             rounds += 1
             tf = os.path.join(ctx.scratch, "%s_%d_%d.ndjson" % (tag, ci, rounds))
-            ranges = _batch_file(tf, [(pi + 1, recs) for pi, recs in todo])
-            r = vlib.tlc(os.path.join(KSPEC, spec), env={"PROGS": pf, "TRACE": tf}, timeout=timeout, workers=1)
+            ranges = _batch_file(tf, [(t[0] + 1, t[1]) for t in todo], eof=refs is not None)
+            env = {"PROGS": pf, "TRACE": tf}
+            if refs is not None:
+                rf = tf + ".ref.json"
+                json.dump([streams(t[2], len(progs[t[0]]["actors"])) for t in todo], open(rf, "w"))
+                env["REF"] = rf
+            r = vlib.tlc(os.path.join(KSPEC, spec), env=env, timeout=timeout, workers=1)
             stats[0] += r.distinct
             stats[1] += r.generated
             if r.status in ("parse", "eval", "timeout", "error", "assumption", "deadlock", "property"):
@@ -276,6 +297,7 @@ def validate_traces(ctx, progs, traces, tag="tv", timeout=1200, spec="SgKernelTr
                     v = vlib.parse_tla_value(line)
                     prog_line, total = v[1], v[2]
             if r.status == "ok" and prog_line is not None and prog_line == total + 1:
+                os.unlink(tf)
                 acc += len(todo)
                 break
             if r.status == "ok" and prog_line is None:
@@ -295,7 +317,10 @@ def validate_traces(ctx, progs, traces, tag="tv", timeout=1200, spec="SgKernelTr
                     bad = j
             if bad is None:
                 bad = len(ranges) - 1
-            pi, recs = todo[bad]
+            if prog_line == ranges[bad][0] and bad > 0 and refs is not None:
+                bad -= 1   # stuck on the reset line of the next execution: this one ended before its reference did
+                reason = "the execution stops before its reference execution does"
+            pi, recs = todo[bad][0], todo[bad][1]
             off = prog_line - ranges[bad][0]  # index into recs of the first unconsumed record (+1 for reset)
             rej.append({"prog": pi, "line": off, "record": recs[off - 1] if 0 < off <= len(recs) else None,
                         "reason": reason, "tlc_tail": r.out[-1500:] if r.status == "invariant" else ""})
